@@ -23,6 +23,12 @@ Proof. reflexivity. Qed.
 Theorem C15_generated_reserved_distinct : tables_ok gen_reserved gen_ts = true.
 Proof. reflexivity. Qed.
 
+(* the model takes a record's descriptor to be the immutable list of its declared fields, and a group's view to be
+   served by the routing table: get_all_fields() works on a copy of descriptor.fields (no operation changes what a
+   descriptor reports), and GroupedRecord._asdict reads every key through the owning member in both branches *)
+Theorem C15_generated_purity_shapes : gen_all_fields_copies = true /\ gen_group_asdict_reads_member = true.
+Proof. split; reflexivity. Qed.
+
 (* ---- merge_record_descriptors = the reference, for ALL lists of descriptors (replacement needs
         duplicate-free descriptors: duplicates inside one descriptor are C06's finding) ---- *)
 Theorem C15_merge_order_and_precedence :
